@@ -48,6 +48,10 @@ type gate struct {
 	onClose func()
 	fired   bool
 	waited  bool
+	// at / atFn: atFn is called once, by the goroutine that reaches the yield point `at`, before it goes on
+	at      string
+	atFn    func()
+	atFired bool
 }
 
 func (g *gate) yield(p string) {
@@ -64,10 +68,19 @@ func (g *gate) yield(p string) {
 	}
 
 	a, b := g.a, g.b
+
+	fireAt := !g.atFired && g.atFn != nil && p == g.at
+	if fireAt {
+		g.atFired = true
+	}
 	g.mu.Unlock()
 
 	if fire {
 		g.onClose()
+	}
+
+	if fireAt {
+		g.atFn()
 	}
 
 	if b != "" && p == b {
